@@ -7,7 +7,7 @@ From Acme.C19 Require Import Model.
 Import ListNotations.
 Open Scope Z_scope.
 
-Definition item : Type := (Z * Z)%type.
+Notation item := (Z * Z)%type (only parsing).
 
 (* (low, high) lexicographic order: the search key of the tree *)
 Definition lex_le (a b : item) : Prop :=
